@@ -65,7 +65,8 @@ Qed.
 (* the property as stated (no side conditions) is refuted on the faithful model; one closed witness per class *)
 Definition C05_full : Prop :=
   forall c, match c with CQuery m _ q ps => wf_query m q = true /\ params_ok q ps = true
-                    | CPages m rows q ps n fuel => wf_pages m q ps = true /\ 0 < n /\ (List.length rows < fuel)%nat end ->
+                    | CPages m rows q ps n fuel => wf_pages m q ps = true /\ 0 < n /\ (List.length rows < fuel)%nat
+                    | CNested Q _ ps => q2_ok Q ps = true end ->
             spec_C05 c (run_C05 c) = true.
 
 Theorem full_refuted : ~ C05_full.
@@ -95,3 +96,17 @@ Qed.
 Theorem filter_default_bound_holds : forall vo d vo' dx, default_sx vo d = (vo', dx) ->
   forall vf ps binds r out, pfx vo' vf -> bind vf ps = Some binds -> scanon (sx_eval binds r out dx) = vcanon d.
 Proof. intros vo d vo' dx H. apply (default_sx_sem vo d vo' dx H). Qed.
+
+(* ---------- tier T2, first slice (nested entity / array references) ---------- *)
+(* the statement for the slice: outside the open classes (taken level by level) the compiled statement gives the
+   reference evaluation; EXISTS for a reference that is not nullable <=> its nested result, under the nested
+   query's own filters / order / first / skip, is not empty (that is how Nested.eval_nodes defines it) *)
+Definition C05_T2_full : Prop :=
+  forall Q nodes ps, q2_ok Q ps = true -> known_nested Q nodes ps = [] ->
+  run_query2 Q nodes ps = Some (eval2 Q ps nodes).
+
+(* what is proved so far: in the model of the compiler the EXISTS sub-query of a reference gets the limit of the
+   select-list sub-query of that reference - LIMIT 1 for an entity reference, the nested query's own
+   LIMIT / OFFSET for an array reference (is_unique_value of get_exists_query) *)
+Theorem T2_exists_limit_partial : forall si, exists_unique si = negb (si_array si).
+Proof. reflexivity. Qed.
